@@ -183,6 +183,61 @@ func runC08(c *Collector, r *Rng, thorough bool) {
 				}
 			}
 		}
+		// ---- SignHashEnvelope: whatever the caller's Headers carry (typed maps, stale raw bytes of a message it
+		// decoded earlier), the returned envelope is accepted by VerifyHashEnvelope and says what was asked for ----
+		if i%3 == 0 {
+			h := cose.Headers{Protected: cose.ProtectedHeader{cose.HeaderLabelAlgorithm: alg}}
+			if r.Bool() {
+				h.Protected[int64(4)] = genBytes(r)
+			}
+			mode := r.Intn(4)
+			switch mode {
+			case 1: // raw bytes of the same typed map
+				if b, err := h.MarshalProtected(); err == nil {
+					h.RawProtected = b
+				}
+			case 2: // raw bytes left over from another message
+				h.RawProtected = []byte{0x43, 0xa1, 0x01, 0x26}
+				h.RawUnprotected = []byte{0xa0}
+			case 3: // raw bytes of another hash envelope (SHA-384 digest of another artifact)
+				h.RawProtected = wBstr(wMap(-1, wInt(1, -1), wInt(int64(alg), -1), wInt(258, 2), wInt(-43, -1), wInt(260, 2), wTstr("old", -1)).Ser(), -1).Ser()
+			}
+			hv := r.Bytes(32)
+			hp := cose.HashEnvelopePayload{HashAlgorithm: cose.AlgorithmSHA256, HashValue: hv, Location: pick(r, []string{"", "new-location"})}
+			sg := &spySigner{alg: alg, kind: SOk, sig: genSigBytes(r)}
+			op, obs, out, err, p := execSignHE(sg, h, hp)
+			if p {
+				c.Fail("C08/panic", "SignHashEnvelope panicked", map[string]any{"op": trunc(op, 500)})
+				continue
+			}
+			addCase(c, fmt.Sprintf("helper/hashenvelope/raw-mode-%d", mode), op, obs, err == nil)
+			if err == nil {
+				rep := map[string]any{"op": trunc(op, 600), "out": hx(out)}
+				if w, perr := refParseFull(out); perr != nil {
+					c.Fail("C08/helper-malformed", "SignHashEnvelope returned malformed CBOR", rep)
+				} else if err := w.canonical(); err != nil {
+					c.Fail("C08/helper-not-canonical", "SignHashEnvelope output is not deterministic CBOR: "+err.Error(), rep)
+				} else if len(sg.calls) == 1 && !bytes.Equal(tbsElement(sg.calls[0], 1), w.Kids[0].Kids[0].Ser()) {
+					c.Fail("C08/signed-vs-emitted", "hash envelope: protected bytes on the wire differ from the bytes that were signed", rep)
+				}
+				vf := &spyVerifier{alg: alg}
+				vop, vobs, m, verr, vp := execVerifyHE(vf, out)
+				if vp {
+					c.Fail("C08/panic", "VerifyHashEnvelope panicked on SignHashEnvelope output", rep)
+					continue
+				}
+				addCase(c, "helper/hashenvelope/verify-own-output", vop, vobs, true)
+				if verr != nil {
+					c.Fail("C08/helper-not-decodable", "SignHashEnvelope output is refused by VerifyHashEnvelope: "+verr.Error(), rep)
+				} else {
+					ha, _ := m.Headers.Protected.PayloadHashAlgorithm()
+					loc, _ := m.Headers.Protected[int64(260)].(string)
+					if ha != cose.AlgorithmSHA256 || !bytes.Equal(m.Payload, hv) || loc != hp.Location {
+						c.Fail("C08/helper-not-equivalent", fmt.Sprintf("the decoded envelope says hash alg %v, location %q, digest %x; asked for SHA-256, %q, %x", ha, loc, m.Payload, hp.Location, hv), rep)
+					}
+				}
+			}
+		}
 		// ---- keys ----
 		if i%4 == 0 {
 			t := genKeyTree(r)
@@ -196,6 +251,20 @@ func runC08(c *Collector, r *Rng, thorough bool) {
 							np[spellInt(r, n, true)] = v
 						} else {
 							np[kk] = v
+						}
+					}
+					if len(np) > 0 && r.Chance(1, 3) {
+						// the same label a second time under another Go integer kind: one COSE label twice
+						for kk := range np {
+							if n, ok := toI64(kk); ok {
+								for tries := 0; tries < 8; tries++ {
+									if alt := spellInt(r, n, true); alt != kk {
+										np[alt] = []byte{1}
+										break
+									}
+								}
+								break
+							}
 						}
 					}
 					k.Params = np
@@ -222,15 +291,15 @@ func c08Check(c *Collector, class, op, obs string, out []byte, err error, panick
 		return
 	}
 	addCase(c, class, op, obs, err == nil)
-	if err != nil {
-		return
-	}
 	for i := 0; i < reps; i++ {
 		o2, e2 := again()
-		if e2 != nil || !bytes.Equal(o2, out) {
-			c.Fail("C08/nondeterministic", fmt.Sprintf("two encodings of the same value differ: %x vs %x (%v)", out, o2, e2), rep)
+		if (e2 != nil) != (err != nil) || !bytes.Equal(o2, out) {
+			c.Fail("C08/nondeterministic", fmt.Sprintf("two encodings of the same value differ: %x (%v) vs %x (%v)", out, err, o2, e2), rep)
 			return
 		}
+	}
+	if err != nil {
+		return
 	}
 	if !inModel || hasRawBuckets(op) {
 		return
@@ -516,4 +585,30 @@ func c09Cleared(c *Collector, kind string, data []byte, rep map[string]any) {
 		c.Fail("C09/cleared-not-idempotent", fmt.Sprintf("canonical form is not a fixed point: %x then %x (%v)", c1, c2, err), rep)
 	}
 	c.Eval("cleared/"+kind, hx(data), true)
+}
+
+func toI64(k any) (int64, bool) {
+	switch v := k.(type) {
+	case int:
+		return int64(v), true
+	case int8:
+		return int64(v), true
+	case int16:
+		return int64(v), true
+	case int32:
+		return int64(v), true
+	case int64:
+		return v, true
+	case uint:
+		return int64(v), true
+	case uint8:
+		return int64(v), true
+	case uint16:
+		return int64(v), true
+	case uint32:
+		return int64(v), true
+	case uint64:
+		return int64(v), true
+	}
+	return 0, false
 }
